@@ -101,6 +101,13 @@ def analyze(run: Any) -> dict[str, list[str]]:  # noqa: C901
         now, cycle, fl, kind = ent[0], ent[1], ent[2], ent[3]
         a = ent[4:]
         m.flags(fl)
+        for g_ in m.groups.values():
+            # "siblings cancelled": from the moment a failure exists, the group scope is cancelled or
+            # effectively cancelled (what the code tests before cancelling it) at some observation
+            if g_.get("failed") and not g_.get("ended") and not g_.get("eff_seen"):
+                sc_ = m.sc.get(g_["scope"])
+                if sc_ is not None and (sc_["cancelled"] or m.effective(g_["scope"])):
+                    g_["eff_seen"] = True
 
         # ---- C03 bookkeeping for blocked tasks
         for T, b in blocked.items():
@@ -289,6 +296,9 @@ def analyze(run: Any) -> dict[str, list[str]]:  # noqa: C901
             T, c = a
             if T in m.tasks and T != 0:
                 m.tasks[T]["finish"] = c
+                G_ = m.tasks[T].get("group")
+                if G_ in m.groups and c != "-" and not all(is_cancel_code(x) for x in code_leaves(c)):
+                    m.groups[G_]["failed"] = True
                 L = m.tasks[T].get("hscope")
                 if L in m.sc:
                     m.sc[L]["active"] = False
@@ -319,6 +329,8 @@ def analyze(run: Any) -> dict[str, list[str]]:  # noqa: C901
         elif kind == "aexit-begin":
             G, T, c = a
             m.groups[G]["body"] = c
+            if c != "-" and not all(is_cancel_code(x) for x in code_leaves(c)):
+                m.groups[G]["failed"] = True
             m.groups[G]["natives_at_aexit"] = natives[T]
         elif kind == "aexit-end":
             G, T, c, handles = a
@@ -419,7 +431,7 @@ def analyze(run: Any) -> dict[str, list[str]]:  # noqa: C901
             extra = Counter(x for x in got_leaves if is_cancel_code(x)) - Counter(body_cancels)
             if extra:
                 V["C02"].append(f"group {G} reported cancellation exceptions as errors: {c}")
-        if expected and not g.get("cancelled_at_end"):
+        if expected and not g.get("cancelled_at_end") and not g.get("eff_seen"):
             V["C02"].append(f"group {G}: a task failed but the group scope was not cancelled")
         if not expected and c not in ("-", "c", "n") and not all(is_cancel_code(x) for x in got_leaves):
             V["C02"].append(f"group {G}: nothing failed but the block raised {c}")
